@@ -133,12 +133,22 @@ theorem unanswered_reported_exactly_once (L q : Nat) (m : Msg) (pm : Plain L q m
 
 open SmppVerif.SweepTasks SmppVerif.Lemmas.SweepTasks in
 /-- Exactly once, safety half, under EVERY interleaving: take any schedule of operation starts (put of a request or a
-    probe, get for a response) and resumptions of operations suspended in the send_error hook, in any order, with any
-    clock values.  A request that was not in the store and is stored at most once leaves the store at most once over the
+    probe, get for a response), resumptions of operations suspended in the send_error hook and cancellations of suspended
+    operations, in any order, with any clock values.  A request that was not in the store and is stored at most once leaves the store at most once over the
     whole run: it is reported as timed out at most once, and never both reported and matched by a response. -/
 theorem exactly_once_under_interleaving (k : Nat) (evs : List Ev) (w : World) (hnew : aget w.cs.store k = none)
     (hput : inserted k (run w evs).2 ≤ 1) : removed k (run w evs).2 ≤ 1 :=
   at_most_once k evs w hnew hput
+
+open SmppVerif.SweepTasks in
+/-- CANCELLATION LOSES NOTHING: a schedule may also cancel a suspended operation (its session ends while the application's
+    hook has not returned): the operation takes no more turns, and that is all - the store is what it was, so every request
+    the cancelled sweep had not reached yet is still there for the next sweep, and nothing is reported for it.  The theorems
+    over schedules (`exactly_once_under_interleaving`, `removals_bounded_by_insertions`) quantify over cancellations too. -/
+theorem cancellation_loses_nothing (w : World) (i : Nat) :
+    (step w (.cancel i)).1.cs = w.cs ∧ (step w (.cancel i)).2 = [] ∧
+    (step w (.cancel i)).1.tasks = w.tasks.eraseIdx i :=
+  ⟨rfl, rfl, rfl⟩
 
 open SmppVerif.SweepTasks SmppVerif.Lemmas.SweepTasks in
 /-- the counting law behind it, for every key and every schedule -/
@@ -205,6 +215,7 @@ end SmppVerif.Props.C14
 #print axioms SmppVerif.Props.C14.nothing_reported_before_ttl
 #print axioms SmppVerif.Props.C14.unanswered_reported_exactly_once
 #print axioms SmppVerif.Props.C14.exactly_once_under_interleaving
+#print axioms SmppVerif.Props.C14.cancellation_loses_nothing
 #print axioms SmppVerif.Props.C14.removals_bounded_by_insertions
 #print axioms SmppVerif.Props.C14.interleaved_never_early
 #print axioms SmppVerif.Props.C14.interleaved_nothing_passed_over
